@@ -148,18 +148,18 @@ theorem C17_refuse_stateless (P : Proto) (c : Cfg) (tid : Nat) :
 /-! ## Defects: the protocols as found, and what remains -/
 
 /-- **`CreateConnection` as found** (check under `RLock`, insert later under `Lock`; repaired by
-`fix:` 1a08cdc): two admissions at `limit-1` both pass the check, both insert. -/
+`fix:` 9716570): two admissions at `limit-1` both pass the check, both insert. -/
 theorem C17_conn_asFound_witness :
     holds true 1 0 (run protoConnAsFound 1 (init 0 [(0, [.acquire]), (0, [.acquire])]) [0, 1, 0, 1]).trace
       (run protoConnAsFound 1 (init 0 [(0, [.acquire]), (0, [.acquire])]) [0, 1, 0, 1]).occ = false := by decide
 
-/-- **Mapping handler as found** (`Load`, check, separate `Add`; repaired by `fix:` e89ebcc). -/
+/-- **Mapping handler as found** (`Load`, check, separate `Add`; repaired by `fix:` 7ca17f3). -/
 theorem C17_map_asFound_witness :
     holds true 2 1 (run protoMapAsFound 2 (init 1 [(0, [.acquire]), (0, [.acquire])]) [0, 1, 0, 1]).trace
       (run protoMapAsFound 2 (init 1 [(0, [.acquire]), (0, [.acquire])]) [0, 1, 0, 1]).occ = false := by decide
 
 /-- **Quotas as found** (count-then-create without mutual exclusion; repaired for one service
-instance by `fix:` e66c8f8). -/
+instance by `fix:` 9698a65). -/
 theorem C17_code_asFound_witness :
     holds false 1 0 (run protoCodeAsFound 1 (init 0 [(0, [.acquire]), (0, [.acquire])]) [0, 1, 0, 1, 0, 1, 0, 1, 0, 1]).trace
       (run protoCodeAsFound 1 (init 0 [(0, [.acquire]), (0, [.acquire])]) [0, 1, 0, 1, 0, 1, 0, 1, 0, 1]).occ = false := by decide
